@@ -209,6 +209,7 @@ type Instance struct {
 	IDs   map[uintptr]int
 	Log   *zoo.Log
 	Extra []any // additional components (post-processors, runners ...) registered after Comps
+	Pre   func(a *app.App) // optional: sees the App before it runs
 
 	Tracer *Tracer
 	Out    kit.Outcome
@@ -277,6 +278,9 @@ func (in *Instance) Run(extraOps ...app.SettingOption) {
 	}
 	ops = append(ops, extraOps...)
 	in.Out = kit.RunAppPre(func(a *app.App) {
+		if in.Pre != nil {
+			in.Pre(a)
+		}
 		for _, b := range in.Behs {
 			if b != nil && len(b.InitLookups) > 0 {
 				b.Lookup = func(name string) (got any, err error) {
